@@ -548,13 +548,22 @@ def run(ctx):
         Ns = int(rng.randint(1, 4))
         Xs = rng.randint(lo, 4, size=(D.par_dim, Ns)).astype(float)
         Xs[:, 0] = x
-        Dcopy = _copy.deepcopy(Dg) if not callable(getattr(Dg, "map", None)) else Dg   # an equal but distinct object where == allows it
-        try:
-            with quiet():
-                if not (Dcopy == Dg and Dg == Dcopy):
-                    Dcopy = Dg
-        except Exception:
-            Dcopy = Dg
+        # equal but DISTINCT geometry objects (deepcopy keeps function-valued attributes such as `map` identical, so
+        # `==` holds): the code must recognise them by `==`, not by `is`
+        def equal_copy(g_):
+            c_ = _copy.deepcopy(g_)
+            try:
+                with quiet():
+                    if c_ is not g_ and (c_ == g_) and (g_ == c_):
+                        return c_
+            except Exception:
+                pass
+            ctx.note(f"no equal distinct copy for {type(g_).__name__}")
+            return g_
+        Dcopy, Rcopy = equal_copy(Dg), equal_copy(Rg)
+        cov_copy = ctx.extra_cov.setdefault("equal_copy_geometries", {})
+        if Dcopy is not Dg:
+            cov_copy[D.label] = cov_copy.get(D.label, 0) + 1
         a = M.arg
 
         def fwd_line(inp_tok, is_par, npos=1, kw="_"):
@@ -566,10 +575,14 @@ def run(ctx):
         reps.append(("nd-fun", True, lambda: model.forward(fx.copy(), is_par=False), fwd_line(f"nd:{qv(fx.ravel())}", False)))
         reps.append(("arr-par", True, lambda: model.forward(CUQIarray(x.copy(), is_par=True, geometry=Dg)), fwd_line(f"arr:1:{gD}:{qv(x)}", True)))
         reps.append(("arr-par-eqgeom", True, lambda: model.forward(CUQIarray(x.copy(), is_par=True, geometry=Dcopy)), fwd_line(f"arr:1:{gD}:{qv(x)}", True)))
+        reps.append(("arr-par-eqgeom-argF", True, lambda: model.forward(CUQIarray(x.copy(), is_par=True, geometry=Dcopy), is_par=False), fwd_line(f"arr:1:{gD}:{qv(x)}", False)))
+        reps.append(("arr-fun-eqgeom", True, lambda: model.forward(CUQIarray(fx.copy(), is_par=False, geometry=Dcopy)), fwd_line(f"arr:0:{gD}:{qv(fx.ravel())}", True)))
+        reps.append(("arr-fun-eqgeom-argF", True, lambda: model.forward(CUQIarray(fx.copy(), is_par=False, geometry=Dcopy), is_par=False), fwd_line(f"arr:0:{gD}:{qv(fx.ravel())}", False)))
         reps.append(("arr-par-argF", True, lambda: model.forward(CUQIarray(x.copy(), is_par=True, geometry=Dg), is_par=False), fwd_line(f"arr:1:{gD}:{qv(x)}", False)))
         reps.append(("arr-fun", True, lambda: model.forward(CUQIarray(fx.copy(), is_par=False, geometry=Dg)), fwd_line(f"arr:0:{gD}:{qv(fx.ravel())}", True)))
         reps.append(("arr-fun-argF", True, lambda: model.forward(CUQIarray(fx.copy(), is_par=False, geometry=Dg), is_par=False), fwd_line(f"arr:0:{gD}:{qv(fx.ravel())}", False)))
         reps.append(("samples", True, lambda: model.forward(Samples(Xs.copy(), geometry=Dg)), fwd_line(f"smp:1:{gD}:{qm(Xs.T)}", True)))
+        reps.append(("samples-eqgeom", True, lambda: model.forward(Samples(Xs.copy(), geometry=Dcopy)), fwd_line(f"smp:1:{gD}:{qm(Xs.T)}", True)))
         reps.append(("samples-nogeom", True, lambda: model.forward(Samples(Xs.copy())), fwd_line(f"smp:1:7:{qm(Xs.T)}", True)))
         # a Samples object of function values (flag is_par=False), with and without the is_par argument
         FXs = None
@@ -617,18 +630,22 @@ def run(ctx):
                 ("arr-par", lambda: CUQIarray(x.copy(), is_par=True, geometry=Dg), True, f"arr:1:{gD}:{qv(x)}"),
                 ("arr-fun", lambda: CUQIarray(fx.copy(), is_par=False, geometry=Dg), True, f"arr:0:{gD}:{qv(fx.ravel())}"),
                 ("arr-fun-argF", lambda: CUQIarray(fx.copy(), is_par=False, geometry=Dg), False, f"arr:0:{gD}:{qv(fx.ravel())}"),
+                ("arr-par-eqgeom-argF", lambda: CUQIarray(x.copy(), is_par=True, geometry=Dcopy), False, f"arr:1:{gD}:{qv(x)}"),
+                ("arr-fun-eqgeom", lambda: CUQIarray(fx.copy(), is_par=False, geometry=Dcopy), True, f"arr:0:{gD}:{qv(fx.ravel())}"),
                 ("samples", lambda: Samples(Xs.copy(), geometry=Dg), True, "smp")]
         dirs = [("nd-par", lambda: d.copy(), True, f"nd:{qv(d)}")]
         if dfun is not None:
             dirs += [("nd-fun", lambda: dfun.copy(), False, f"nd:{qv(dfun.ravel())}"),
                      ("arr-par", lambda: CUQIarray(d.copy(), is_par=True, geometry=Rg), True, f"arr:1:{gR}:{qv(d)}"),
-                     ("arr-fun", lambda: CUQIarray(dfun.copy(), is_par=False, geometry=Rg), True, f"arr:0:{gR}:{qv(dfun.ravel())}")]
+                     ("arr-fun", lambda: CUQIarray(dfun.copy(), is_par=False, geometry=Rg), True, f"arr:0:{gR}:{qv(dfun.ravel())}"),
+                     ("arr-par-eqgeom-argF", lambda: CUQIarray(d.copy(), is_par=True, geometry=Rcopy), False, f"arr:1:{gR}:{qv(d)}"),
+                     ("arr-fun-eqgeom", lambda: CUQIarray(dfun.copy(), is_par=False, geometry=Rcopy), True, f"arr:0:{gR}:{qv(dfun.ravel())}")]
         dirs.append(("samples", lambda: Samples(np.column_stack([d, d])), True, "smp"))
         gres = {}
         combos = [(w, dd) for w in wrts for dd in dirs]
         if not thorough and len(combos) > 14:
             # always keep the first row / column, sample the rest
-            keep = [c for c in combos if c[0][0] == "nd-par" or c[1][0] == "nd-par"]
+            keep = [c for c in combos if c[0][0] == "nd-par" or c[1][0] == "nd-par" or (c[0][0].endswith("eqgeom") and c[1][0] == "arr-fun-eqgeom")]
             rest = [c for c in combos if c not in keep]
             idx = rng.choice(len(rest), size=min(6, len(rest)), replace=False)
             combos = keep + [rest[i] for i in sorted(idx)]
@@ -685,6 +702,9 @@ def run(ctx):
             if ddim != D.par_dim and st != "err":
                 ctx.fail("rename:dimension", desc, "ValueError for a distribution of the wrong dimension", impl)
 
+    # -------------------------------------------------------------------- user geometries with `gradient`, wrapped in MappedGeometry
+    wrapped_user_geometries(ctx, cuqi, rng, lines, pending, verdicts, 160 if thorough else 24)
+
     # -------------------------------------------------------------------- call histories on one model object
     histories(ctx, cuqi, rng, lines, pending, verdicts, 400 if thorough else 40)
 
@@ -731,6 +751,142 @@ def run(ctx):
                 if f["case"].get("call") == desc.get("call"):
                     ctx.fail(key, f["case"], f["demanded"], f["got"], f["what"] + " [found while searching near a model/implementation disagreement]")
                     break
+
+
+def wrapped_user_geometries(ctx, cuqi, rng, lines, pending, verdicts, nconf):
+    """Domain geometry = a `_WrappedGeometry` (MappedGeometry, possibly nested) around a USER geometry whose class has
+    its own `gradient` method.  The wrapper has no `gradient` and is not identity-like: the model's decision table
+    refuses `Model.gradient`.  Oracle: refusal, or - if a value is returned - the finite-difference oracle of forward.
+    Controls: the unwrapped user geometries (formable: the value must pass the oracle)."""
+    from cuqi.array import CUQIarray
+    G = cuqi.geometry
+
+    class UserLinear(G.Geometry):
+        """par2fun = E p, gradient = E^T direction (linear in direction, constant in the point)"""
+        def __init__(self, E):
+            self._E = E
+        @property
+        def par_shape(self):
+            return (self._E.shape[1],)
+        def par2fun(self, p):
+            return self._E @ p
+        def gradient(self, direction, wrt_par):
+            return self._E.T @ np.asarray(direction, dtype=float)
+        def _plot(self):
+            pass
+
+    class UserQuadratic(G.Geometry):
+        """par2fun = p**2 (elementwise), gradient = 2 p * direction"""
+        def __init__(self, n):
+            self._n = n
+        @property
+        def par_shape(self):
+            return (self._n,)
+        def par2fun(self, p):
+            return p ** 2
+        def gradient(self, direction, wrt_par):
+            return 2 * np.asarray(wrt_par, dtype=float) * np.asarray(direction, dtype=float)
+        def _plot(self):
+            pass
+
+    WRAPS = {"aff": (lambda x: 2 * x + 1, "aff_2_1"), "cube": (lambda x: x ** 3, "cube"), "exp": (lambda x: np.exp(x), None)}
+    SHAPES = [[], ["aff"], ["cube"], ["exp"], ["aff", "cube"], ["cube", "aff"], ["exp", "aff"]]
+    cov = ctx.extra_cov.setdefault("wrapped_user_geometry", {})
+    for wi in range(nconf):
+        n = int(rng.randint(2, 4))
+        inner_kind = "linear" if wi % 2 == 0 else "quadratic"
+        wraps = SHAPES[wi % len(SHAPES)]
+        if inner_kind == "linear":
+            N = n + 1
+            E = rng.randint(-2, 3, size=(N, n)).astype(float)
+            inner = UserLinear(E); Etok = qm(E); ktoks = []
+        else:
+            N = n
+            inner = UserQuadratic(n); Etok = "id"; ktoks = ["sq"]
+        geom = inner
+        has_exp = "exp" in wraps
+        for w in wraps:
+            geom = G.MappedGeometry(geom, map=WRAPS[w][0])
+            ktoks.append(WRAPS[w][1] or "cube")       # exp: stand-in, only refusal decisions are sent to the driver
+        label = f"{'Mapped(' * len(wraps)}User{inner_kind.capitalize()}{''.join(',' + w + ')' for w in wraps)}"
+        D = Geo(label, "mapn", geom, None, False, (N,), n, has_f2p=False, exact=not has_exp)
+        unwrapped = not wraps
+        Dtok = f"mapn:0:{'chs' if unwrapped else 'none'}:{Etok}:{'+'.join(ktoks) if ktoks else '_'}:{len(wraps)}"
+        nr = int(rng.randint(2, 4))
+        R = make_geometries(cuqi, rng, nr, str(rng.choice(["cont1d", "discrete", "default1d"])))
+        mk = ["gen-jac-k", "gen-gd-k", "gen-gs-k", "linmat", "gen-gw-s"][wi % 5]
+        try:
+            M = build_model(cuqi, rng, mk, D, R, geom, R.obj)
+        except Exception as e:
+            ctx.note(f"wrapped-user-geometry: constructor refused {mk} {label}: {type(e).__name__}")
+            continue
+        model = M.obj
+        Dg, Rg = model.domain_geometry, model.range_geometry
+        canon = Canon(cuqi, [(Dg, 0), (Rg, 1)])
+        Rtok = R.token(1)
+        conf = {"model": mk, "domain": label, "range": R.label, "n": n, "seed_index": 200000 + wi, "wrapped_user_geometry": True}
+        cov[label] = cov.get(label, 0) + 1
+        x = (rng.randint(-4, 5, size=n) / 4.0) if has_exp else rng.randint(-2, 3, size=n).astype(float)
+        d = rng.randint(-3, 4, size=R.par_dim).astype(float)
+        with quiet():
+            fx = np.asarray(Dg.par2fun(x), dtype=float)
+        tol = 1e-12 if not has_exp else TOL
+        # forward (tie only where the maps are rational; oracle everywhere)
+        ref = np.asarray(M.core(fx.ravel()), dtype=float)
+        fw = [("nd-par", lambda: model.forward(x.copy()), f"nd:{qv(x)}", True),
+              ("nd-fun", lambda: model.forward(fx.copy(), is_par=False), f"nd:{qv(fx)}", False),
+              ("arr-par", lambda: model.forward(CUQIarray(x.copy(), geometry=Dg)), f"arr:1:0:{qv(x)}", True),
+              ("arr-fun", lambda: model.forward(CUQIarray(fx.copy(), is_par=False, geometry=Dg)), f"arr:0:0:{qv(fx)}", True)]
+        for kind, th, tok, ip in fw:
+            st, val = call(th)
+            c = canon(val) if st == "ok" else ("err", val)
+            desc = {**conf, "call": "forward", "input": kind, "x": x.tolist()}
+            ctx.case("wrapped:forward:" + kind, desc)
+            if not has_exp:
+                lines.append(f"fwd {M.token} {Dtok} {Rtok} FF {tok} {tok_bool(ip)} 1 _")
+                pending.append((len(lines) - 1, f"tie:wrapped:forward:{kind}", desc, c, tol))
+            data = c[1] if c[0] == "nd" else c[3] if c[0] == "arr" else None
+            if data is None or not veq(data, ref, tol):
+                ctx.fail(f"forward:{kind}:value:wrapped-user-geometry", desc, ref.tolist(), short(c), "output differs from R.fun2par(F(D.par2fun(x)))")
+        # gradient: decision table says refused (wrapper) / formable (unwrapped control)
+        has_func = M.gradkind != "none"
+        Jfd = None
+        reps_w = [("nd-par", lambda: x.copy(), True, f"nd:{qv(x)}"),
+                  ("arr-par", lambda: CUQIarray(x.copy(), geometry=Dg), True, f"arr:1:0:{qv(x)}"),
+                  ("arr-fun", lambda: CUQIarray(fx.copy(), is_par=False, geometry=Dg), True, f"arr:0:0:{qv(fx)}"),
+                  ("nd-fun", lambda: fx.copy(), False, f"nd:{qv(fx)}")]
+        reps_d = [("nd-par", lambda: d.copy(), f"nd:{qv(d)}"),
+                  ("arr-par", lambda: CUQIarray(d.copy(), geometry=Rg), f"arr:1:1:{qv(d)}")]
+        for wk, wth, iwp, wtok in reps_w:
+            for dk_, dth, dtok in reps_d:
+                st, val = call(lambda wth=wth, dth=dth, iwp=iwp: model.gradient(dth(), wth(), is_wrt_par=iwp))
+                c = canon(val) if st == "ok" else ("err", val)
+                desc = {**conf, "call": "gradient", "wrt": wk, "direction": dk_, "x": x.tolist(), "d": d.tolist()}
+                ctx.case(f"wrapped:gradient:{wk}:{dk_}", desc)
+                lines.append(f"grad {M.token} {Dtok} {Rtok} FF {dtok} {wtok} 1 {tok_bool(iwp)}")
+                pending.append((len(lines) - 1, f"tie:wrapped:gradient:wrt-{wk}:dir-{dk_}", desc, c, tol))
+                key = f"gradient:{'usergeom' if unwrapped else 'wrapped-usergeom'}:wrt-{wk}:dir-{dk_}:tags-{M.gradkind}-method"
+                must_refuse = (not unwrapped) or (not has_func) or wk in ("arr-fun", "nd-fun")   # no fun2par anywhere here
+                if c[0] == "err":
+                    if not must_refuse:
+                        ctx.fail(key + ":raised", desc, "a value (unwrapped user geometry with gradient)", c[1], "gradient raised although every ingredient is available")
+                    else:
+                        verdicts["wrapped:refused"] = verdicts.get("wrapped:refused", 0) + 1
+                    continue
+                # a value was returned: it must be the transposed Jacobian of forward (finite differences)
+                if Jfd is None:
+                    Jfd = fd_jacobian(model, x, R.par_dim)
+                refg = Jfd.T @ d
+                data = c[1] if c[0] == "nd" else c[3]
+                scale = 1.0 + np.abs(refg).max()
+                if data.shape != refg.shape or np.isnan(data).any() or np.abs(data - refg).max() > 1e-5 * scale * (1 + np.abs(fx).max()) ** 2:
+                    ctx.fail(key + ":value", desc, np.round(refg, 6).tolist(), short(c),
+                             "gradient is not the transposed Jacobian of x -> forward(x): the derivative of the wrapper's map is missing")
+                    verdicts["wrapped:wrong"] = verdicts.get("wrapped:wrong", 0) + 1
+                elif must_refuse and wk in ("arr-fun", "nd-fun"):
+                    ctx.fail(key + ":refusal", desc, "an exception (function values cannot be converted to parameters)", short(c))
+                else:
+                    verdicts["wrapped:value-ok"] = verdicts.get("wrapped:value-ok", 0) + 1
 
 
 # callables that are correct on one vector but are NOT column-vectorised: on a (dim, N) array they do something
@@ -905,7 +1061,8 @@ def histories(ctx, cuqi, rng, lines, pending, verdicts, nhist):
                 ctx.fail(f"history:{lab}:depends-on-history", desc, short(before[lab]), short(after[lab]), "the same call gives another result after the history")
 
 
-IN_SCOPE_FWD = ["nd-par", "nd-par-kw", "nd-fun", "arr-par", "arr-par-eqgeom", "arr-par-argF", "arr-fun", "arr-fun-argF"]
+IN_SCOPE_FWD = ["nd-par", "nd-par-kw", "nd-fun", "arr-par", "arr-par-eqgeom", "arr-par-eqgeom-argF", "arr-par-argF", "arr-fun",
+                "arr-fun-argF", "arr-fun-eqgeom", "arr-fun-eqgeom-argF"]
 
 
 def oracle_forward(ctx, cuqi, verdicts, conf, M, D, R, model, Dg, Rg, x, fx, Xs, FXs, results, gR, exact):
@@ -944,7 +1101,7 @@ def oracle_forward(ctx, cuqi, verdicts, conf, M, D, R, model, Dg, Rg, x, fx, Xs,
             ctx.fail(key + ":wrap", desc, "plain ndarray", short(c), "output is not wrapped like the input")
         verdicts["forward:checked"] = verdicts.get("forward:checked", 0) + 1
     # Samples: column-wise, Samples on the range geometry
-    for kind in ("samples", "samples-nogeom"):
+    for kind in ("samples", "samples-eqgeom", "samples-nogeom"):
         c = results[kind]
         desc = {**desc0, "input": kind, "Xs": Xs.tolist()}
         key = f"forward:{kind}"
@@ -1010,7 +1167,7 @@ def oracle_gradient(ctx, cuqi, verdicts, conf, M, D, R, model, Dg, Rg, x, fx, d,
         desc = {**conf, "call": "gradient", "wrt": wk, "direction": dk_, "x": x.tolist(), "d": d.tolist()}
         key = f"gradient:{dom}:wrt-{wk}:dir-{dk_}:{tags}"
         samples_in = wk == "samples" or dk_ == "samples"
-        needs_f2p = wk in ("nd-fun", "arr-fun", "arr-fun-argF")
+        needs_f2p = wk.startswith(("nd-fun", "arr-fun"))
         if not formable or samples_in or (needs_f2p and not D.has_f2p):
             if c[0] != "err":
                 ctx.fail(key + ":refusal", desc, "an exception (the gradient cannot be formed correctly here)", short(c),
